@@ -1155,4 +1155,613 @@ example : (∃ e, replaceKw exObj [(['m', '.', 'n'], .int 1)] = .error (.raise e
 example : (sgMeta [((['C'], ['s']), { hasDc := true, isOpt := false, sg := some [(['b'], Val.int 1)], fac := Option.none })]
     ['C'] ['s']).sg = some [(['b'], Val.int 1)] := rfl
 
+/-! ## Round 2
+
+### replace_subgroups: any kind of selection value, nested form, depth 2, pass-through parents -/
+
+/-- the loop applied to ONE selection entry `k ↦ s`: if the member picked for `k` is `fv` and the child
+    selections (if any) turn it into `nv`, the result is `dataclasses.replace(obj, k=nv)` on the field list. -/
+theorem sgFields_single_gen (tbl : SgTable) (recur : Val → Dict → Out Val) (cls : Str) (fs : List Fld)
+    (k : Str) (s nv fv : Val) (f : Fld)
+    (hi : ∀ f ∈ fs, f.init = true) (hf : getFld fs k = some f)
+    (hdc : (sgMeta tbl cls k).hasDc = true)
+    (hp : pickMember (sgMeta tbl cls k) f.val (selSplit s).1 = .ok fv)
+    (hrec : ((selSplit s).2.isEmpty = true ∧ nv = fv) ∨
+            ((selSplit s).2.isEmpty = false ∧ recur fv (selSplit s).2 = .ok nv)) :
+    ∃ fs', sgFields tbl recur cls fs [(k, s)] = .ok fs' ∧ setField fs k nv = some fs' := by
+  induction fs with
+  | nil => simp [getFld] at hf
+  | cons f0 rest ih =>
+    obtain ⟨n0, i, v0, d0⟩ := f0
+    have h0 : i = true := hi (.mk n0 i v0 d0) (by simp)
+    subst h0
+    have hrest : ∀ g ∈ rest, g.init = true := fun g hg => hi g (by simp [hg])
+    simp only [getFld] at hf
+    by_cases hnk : n0 = k
+    · subst hnk
+      simp only [if_true, Option.some.injEq] at hf
+      subst hf
+      simp only [Fld.val] at hp
+      refine ⟨.mk n0 true nv d0 :: rest, ?_, by simp [setField]⟩
+      have hsel : dget [(n0, s)] n0 = some s := by simp [dget]
+      have hdel : ddel [(n0, s)] n0 = [] := by simp [ddel]
+      rw [sgFields]
+      rcases hrec with ⟨he, rfl⟩ | ⟨he, hr⟩
+      · simp only [hsel, hdc, hp, he, hdel, sgFields_nil_sel tbl recur cls rest hrest]
+        simp
+      · simp only [hsel, hdc, hp, he, hr, hdel, sgFields_nil_sel tbl recur cls rest hrest]
+        simp
+    · simp only [hnk, if_false] at hf
+      obtain ⟨fs', h1, h2⟩ := ih hrest hf
+      have hkn : k ≠ n0 := fun e => hnk e.symm
+      exact ⟨.mk n0 true v0 d0 :: fs', by simp [sgFields, dget, hkn, h1], by simp [setField, hnk, h2]⟩
+
+/-- one top-level selection entry, whatever its form: the call succeeds and equals `dataclasses.replace(obj, k=nv)` -/
+theorem replaceSg_single_gen (tbl : SgTable) (fuel : Nat) (cls : Str) (fs : List Fld)
+    (k : Str) (s nv fv : Val) (f : Fld) (hk : '.' ∉ k)
+    (hi : ∀ f ∈ fs, f.init = true) (hf : getFld fs k = some f)
+    (hdc : (sgMeta tbl cls k).hasDc = true)
+    (hp : pickMember (sgMeta tbl cls k) f.val (selSplit s).1 = .ok fv)
+    (hrec : ((selSplit s).2.isEmpty = true ∧ nv = fv) ∨
+            ((selSplit s).2.isEmpty = false ∧ replaceSg tbl fuel fv (selSplit s).2 = .ok nv)) :
+    ∃ r, replaceSg tbl (fuel + 1) (.inst cls fs) [(k, s)] = .ok r ∧ refEdit (.inst cls fs) [k] nv = some r := by
+  obtain ⟨fs', h1, h2⟩ := sgFields_single_gen tbl (replaceSg tbl fuel) cls fs k s nv fv f hi hf hdc hp hrec
+  refine ⟨.inst cls fs', ?_, ?_⟩
+  · simp only [replaceSg, unflattenSel_single k _ hk, h1]
+    rw [rebuild_allInit fs' (setField_allInit fs k nv fs' hi h2)]
+  · simp only [refEdit, h2, Option.map_some]
+    rw [rebuild_allInit fs' (setField_allInit fs k nv fs' hi h2)]
+
+/-- **selection by dataclass type**: the member becomes `T()` — `dataclasses.replace(obj, k=T())`, nothing else changes -/
+theorem c18_subgroups_select_type (tbl : SgTable) (fuel : Nat) (cls : Str) (fs : List Fld)
+    (k c : Str) (mk : Val) (f : Fld) (hk : '.' ∉ k)
+    (hi : ∀ f ∈ fs, f.init = true) (hf : getFld fs k = some f) (hdc : (sgMeta tbl cls k).hasDc = true) :
+    ∃ r, replaceSg tbl (fuel + 1) (.inst cls fs) [(k, .type c mk)] = .ok r ∧
+         refEdit (.inst cls fs) [k] mk = some r :=
+  replaceSg_single_gen tbl fuel cls fs k (.type c mk) mk mk f hk hi hf hdc rfl (Or.inl ⟨rfl, rfl⟩)
+
+/-- **selection by dataclass instance**: the member becomes (a copy of) that instance -/
+theorem c18_subgroups_select_inst (tbl : SgTable) (fuel : Nat) (cls : Str) (fs : List Fld)
+    (k c : Str) (ifs : List Fld) (f : Fld) (hk : '.' ∉ k)
+    (hi : ∀ f ∈ fs, f.init = true) (hf : getFld fs k = some f) (hdc : (sgMeta tbl cls k).hasDc = true) :
+    ∃ r, replaceSg tbl (fuel + 1) (.inst cls fs) [(k, .inst c ifs)] = .ok r ∧
+         refEdit (.inst cls fs) [k] (.inst c ifs) = some r :=
+  replaceSg_single_gen tbl fuel cls fs k (.inst c ifs) (.inst c ifs) (.inst c ifs) f hk hi hf hdc rfl (Or.inl ⟨rfl, rfl⟩)
+
+/-- **nested form = flat form** for a selected parent with one child: `{"a": {"__key__": y, "b": x}}` is a fixed
+    point of `_unflatten_selection_dict`, and by `unflattenSel_parent_child` it is what `{"a": y, "a.b": x}` becomes. -/
+theorem unflattenSel_nested_form (a b : Str) (x y : Val) (ha : '.' ∉ a) :
+    unflattenSel [(a, .dict [(keyword, y), (b, x)])] = [(a, .dict [(keyword, y), (b, x)])] :=
+  unflattenSel_single a _ ha
+
+theorem c18_subgroups_nested_eq_flat (tbl : SgTable) (fuel : Nat) (obj x y : Val) (a b : Str)
+    (ha : '.' ∉ a) (hb : '.' ∉ b) (hbk : b ≠ keyword) :
+    replaceSg tbl fuel obj [(a, .dict [(keyword, y), (b, x)])] = replaceSg tbl fuel obj [(a, y), (joinDot [a, b], x)] := by
+  cases fuel with
+  | zero => rfl
+  | succ f =>
+    cases obj with
+    | inst cls fs =>
+      simp only [replaceSg, unflattenSel_nested_form a b x y ha, unflattenSel_parent_child a b x y ha hb hbk]
+    | _ => rfl
+
+/-- a parent that a selection may pass through: not Optional, no `subgroups()` choices of its own -/
+def PlainParent (m : SgMeta) : Prop := m.isOpt = false ∧ (m.sg = Option.none ∨ m.sg = some [])
+
+theorem pickMember_passthrough (m : SgMeta) (c2 : Str) (fs2 : List Fld) (hm : PlainParent m) :
+    pickMember m (.inst c2 fs2) .none = .ok (.inst c2 fs2) := by
+  obtain ⟨ho, hs | hs⟩ := hm <;> simp [pickMember, ho, hs]
+
+/-- **Pass-through selections — full statement**: when only a member *below* the dataclass-valued field `a` is
+    selected and the selection succeeds on the current `obj.a`, it succeeds on `obj`. -/
+def PassThroughFull : Prop :=
+  ∀ (tbl : SgTable) (fuel : Nat) (cls : Str) (fs : List Fld) (a b : Str) (x r2 : Val) (c2 : Str) (fs2 : List Fld) (f : Fld),
+    '.' ∉ a → '.' ∉ b → b ≠ keyword → (∀ g ∈ fs, g.init = true) → getFld fs a = some f → f.val = .inst c2 fs2 →
+    (sgMeta tbl cls a).hasDc = true → replaceSg tbl (fuel + 1) (.inst c2 fs2) [(b, x)] = .ok r2 →
+    ∃ r, replaceSg tbl (fuel + 2) (.inst cls fs) [(joinDot [a, b], x)] = .ok r
+
+/-- **Partial (open finding C18-subgroups-passthrough-opt-sg excluded by `PlainParent`)**: the call succeeds and
+    is `dataclasses.replace(obj, a=<obj.a with the selection applied>)`. -/
+theorem c18_subgroups_passthrough_partial (tbl : SgTable) (fuel : Nat) (cls : Str) (fs : List Fld) (a b : Str)
+    (x r2 : Val) (c2 : Str) (fs2 : List Fld) (f : Fld)
+    (ha : '.' ∉ a) (hb : '.' ∉ b) (hbk : b ≠ keyword) (hi : ∀ g ∈ fs, g.init = true)
+    (hf : getFld fs a = some f) (hv : f.val = .inst c2 fs2)
+    (hdc : (sgMeta tbl cls a).hasDc = true) (hplain : PlainParent (sgMeta tbl cls a))
+    (h2 : replaceSg tbl (fuel + 1) (.inst c2 fs2) [(b, x)] = .ok r2) :
+    ∃ r, replaceSg tbl (fuel + 2) (.inst cls fs) [(joinDot [a, b], x)] = .ok r ∧
+         refEdit (.inst cls fs) [a] r2 = some r := by
+  have hval : (selSplit (.dict [(b, x)])).1 = .none := by simp [selSplit, dget, hbk]
+  have hchild : (selSplit (.dict [(b, x)])).2 = [(b, x)] := by simp [selSplit, ddel, hbk]
+  obtain ⟨fs', h1, hset⟩ := sgFields_single_gen tbl (replaceSg tbl (fuel + 1)) cls fs a (.dict [(b, x)]) r2 (.inst c2 fs2) f
+    hi hf hdc (by rw [hval, hv]; exact pickMember_passthrough _ c2 fs2 hplain)
+    (Or.inr ⟨by rw [hchild]; rfl, by rw [hchild]; exact h2⟩)
+  refine ⟨.inst cls fs', ?_, ?_⟩
+  · simp only [replaceSg, unflattenSel_dotted2 a b x ha hb, h1]
+    rw [rebuild_allInit fs' (setField_allInit fs a r2 fs' hi hset)]
+  · simp only [refEdit, hset, Option.map_some]
+    rw [rebuild_allInit fs' (setField_allInit fs a r2 fs' hi hset)]
+
+/-- **Witness (open finding C18-subgroups-passthrough-opt-sg)**: `c.n : Optional[AB]` holds `AB(s=A(), k=9)`;
+    `{"s": "b"}` succeeds on `c.n`, but `{"n.s": "b"}` on `c` raises (the field is set to `None` first). -/
+theorem c18_subgroups_passthrough_witness : ¬ PassThroughFull := by
+  intro h
+  let B0 : Val := .inst ['B'] [.mk ['b'] true (.str ['x']) .none]
+  let tbl : SgTable := [((['C'], ['n']), { hasDc := true, isOpt := true, sg := Option.none, fac := Option.none }),
+                        ((['A', 'B'], ['s']), { hasDc := true, isOpt := false, sg := some [(['b'], B0)], fac := Option.none })]
+  obtain ⟨r, hr⟩ := h tbl 1 ['C'] [.mk ['n'] true (.inst ['A', 'B'] [.mk ['s'] true (.int 0) .none, .mk ['k'] true (.int 9) .none]) .none]
+    ['n'] ['s'] (.str ['b']) (.inst ['A', 'B'] [.mk ['s'] true B0 .none, .mk ['k'] true (.int 9) .none])
+    ['A', 'B'] [.mk ['s'] true (.int 0) .none, .mk ['k'] true (.int 9) .none] (.mk ['n'] true (.inst ['A', 'B'] [.mk ['s'] true (.int 0) .none, .mk ['k'] true (.int 9) .none]) .none)
+    (by decide) (by decide) (by decide) (by intro g hg; simp at hg; subst hg; rfl) rfl rfl rfl rfl
+  have : replaceSg tbl 3 (.inst ['C'] [.mk ['n'] true (.inst ['A', 'B'] [.mk ['s'] true (.int 0) .none, .mk ['k'] true (.int 9) .none]) .none])
+      [(joinDot [['n'], ['s']], .str ['b'])] = .error (.raise .typeError) := rfl
+  rw [this] at hr
+  cases hr
+
+example : PlainParent { hasDc := true, isOpt := false, sg := Option.none, fac := Option.none } := ⟨rfl, Or.inl rfl⟩
+
+/-- **The SELECTED member at depth 2**: selecting `a.b` by subgroup key below a plain dataclass-valued field `a`
+    succeeds and is `dataclasses.replace(obj, a=dataclasses.replace(obj.a, b=<alternative>))` — level by level. -/
+theorem c18_subgroups_nested_selected (tbl : SgTable) (fuel : Nat) (cls : Str) (fs : List Fld) (a b key : Str)
+    (alts : Dict) (alt : Val) (c2 : Str) (fs2 : List Fld) (f f2 : Fld)
+    (ha : '.' ∉ a) (hb : '.' ∉ b) (hbk : b ≠ keyword) (hi : ∀ g ∈ fs, g.init = true) (hi2 : ∀ g ∈ fs2, g.init = true)
+    (hf : getFld fs a = some f) (hv : f.val = .inst c2 fs2) (hf2 : getFld fs2 b = some f2)
+    (hdc : (sgMeta tbl cls a).hasDc = true) (hplain : PlainParent (sgMeta tbl cls a))
+    (hdc2 : (sgMeta tbl c2 b).hasDc = true) (hsg : (sgMeta tbl c2 b).sg = some alts) (halt : dget alts key = some alt) :
+    ∃ r, replaceSg tbl (fuel + 2) (.inst cls fs) [(joinDot [a, b], .str key)] = .ok r ∧
+         refEdit (.inst cls fs) [a, b] alt = some r := by
+  obtain ⟨r2, h2, href2⟩ := c18_subgroups_select tbl fuel c2 fs2 b key alts alt f2 hb hi2 hf2 hdc2 hsg halt
+  obtain ⟨r, h1, href⟩ := c18_subgroups_passthrough_partial tbl fuel cls fs a b (.str key) r2 c2 fs2 f ha hb hbk hi hf hv hdc hplain h2
+  refine ⟨r, h1, ?_⟩
+  have hgf : getField fs a = some (.inst c2 fs2) := by rw [getField_eq, hf]; simp [hv]
+  rw [refEdit, hgf]
+  simp only
+  rw [href2]
+  simp only
+  rw [refEdit] at href
+  exact href
+
+/-- what `dataclasses.replace` level by level writes can be read back -/
+theorem getField_setField (fs fs' : List Fld) (k : Str) (x : Val) (h : setField fs k x = some fs') :
+    getField (rebuild fs') k = some x := by
+  induction fs generalizing fs' with
+  | nil => simp [setField] at h
+  | cons f0 rest ih =>
+    obtain ⟨n0, i, v0, d0⟩ := f0
+    simp only [setField] at h
+    by_cases hnk : n0 = k
+    · simp only [hnk, if_true] at h
+      cases i with
+      | false => simp at h
+      | true => simp only [if_true, Option.some.injEq] at h; subst h; simp [rebuild, getField, hnk]
+    · simp only [hnk, if_false, Option.map_eq_some_iff] at h
+      obtain ⟨r, hr, rfl⟩ := h
+      have := ih r hr
+      simp only [rebuild, List.map_cons] at this ⊢
+      cases i <;> simp [getField, hnk, this]
+
+theorem getPath_refEdit (p : List Str) : ∀ (obj v r : Val), refEdit obj p v = some r → getPath r p = some v := by
+  induction p with
+  | nil => intro obj v r h; cases obj <;> simp [refEdit] at h
+  | cons k rest ih =>
+    intro obj v r h
+    cases obj with
+    | inst c fs =>
+      cases rest with
+      | nil =>
+        simp only [refEdit, Option.map_eq_some_iff] at h
+        obtain ⟨fs', hs, rfl⟩ := h
+        simp [getPath, getField_setField fs fs' k v hs]
+      | cons k2 r2 =>
+        simp only [refEdit] at h
+        cases hg : getField fs k with
+        | none => rw [hg] at h; simp at h
+        | some sub =>
+          rw [hg] at h
+          simp only at h
+          cases hr : refEdit sub (k2 :: r2) v with
+          | none => rw [hr] at h; simp at h
+          | some sub' =>
+            rw [hr] at h
+            simp only [Option.map_eq_some_iff] at h
+            obtain ⟨fs', hs, rfl⟩ := h
+            simp only [getPath, getField_setField fs fs' k sub' hs]
+            exact ih sub v sub' hr
+    | _ => simp [refEdit] at h
+
+/-- corollary: after a depth-2 selection the member `a.b` IS the chosen alternative -/
+theorem c18_subgroups_nested_selected_leaf (tbl : SgTable) (fuel : Nat) (cls : Str) (fs : List Fld) (a b key : Str)
+    (alts : Dict) (alt : Val) (c2 : Str) (fs2 : List Fld) (f f2 : Fld)
+    (ha : '.' ∉ a) (hb : '.' ∉ b) (hbk : b ≠ keyword) (hi : ∀ g ∈ fs, g.init = true) (hi2 : ∀ g ∈ fs2, g.init = true)
+    (hf : getFld fs a = some f) (hv : f.val = .inst c2 fs2) (hf2 : getFld fs2 b = some f2)
+    (hdc : (sgMeta tbl cls a).hasDc = true) (hplain : PlainParent (sgMeta tbl cls a))
+    (hdc2 : (sgMeta tbl c2 b).hasDc = true) (hsg : (sgMeta tbl c2 b).sg = some alts) (halt : dget alts key = some alt) :
+    ∃ r, replaceSg tbl (fuel + 2) (.inst cls fs) [(joinDot [a, b], .str key)] = .ok r ∧ getPath r [a, b] = some alt := by
+  obtain ⟨r, h1, h2⟩ := c18_subgroups_nested_selected tbl fuel cls fs a b key alts alt c2 fs2 f f2 ha hb hbk hi hi2 hf hv hf2
+    hdc hplain hdc2 hsg halt
+  exact ⟨r, h1, getPath_refEdit [a, b] _ alt r h2⟩
+
+/-- **Unknown selection keys — full statement**: a selection key that names no field never returns normally. -/
+def SubgroupsUnknownRaisesFull : Prop :=
+  ∀ (tbl : SgTable) (fuel : Nat) (cls : Str) (fs : List Fld) (k : Str) (x : Val),
+    getFld fs k = Option.none → ∀ r, replaceSg tbl fuel (.inst cls fs) [(k, x)] ≠ .ok r
+
+/-- **Witness (open finding C18-subgroups-unknown-ignored)**: `replace_subgroups(c, {"zz": "b"})` returns a plain copy. -/
+theorem c18_subgroups_unknown_witness : ¬ SubgroupsUnknownRaisesFull := by
+  intro h
+  exact h [] 1 ['C'] [.mk ['z'] true (.int 3) .none] ['z', 'z'] (.str ['b']) rfl
+    (.inst ['C'] [.mk ['z'] true (.int 3) .none]) rfl
+
+/-- pass-through, total form: under a plain parent the call succeeds AND every sibling of the replaced member is
+    kept (this is `c18_subgroups_siblings_kept` with its success hypothesis discharged; for Optional / subgroups
+    parents that hypothesis is unsatisfiable — `c18_subgroups_passthrough_witness`). -/
+theorem c18_subgroups_passthrough_keeps_siblings (tbl : SgTable) (fuel : Nat) (cls : Str) (fs : List Fld) (a b : Str)
+    (x r2 : Val) (c2 : Str) (fs2 : List Fld) (f : Fld)
+    (ha : '.' ∉ a) (hb : '.' ∉ b) (hbk : b ≠ keyword) (hi : ∀ g ∈ fs, g.init = true)
+    (hf : getFld fs a = some f) (hv : f.val = .inst c2 fs2)
+    (hdc : (sgMeta tbl cls a).hasDc = true) (hplain : PlainParent (sgMeta tbl cls a))
+    (h2 : replaceSg tbl (fuel + 1) (.inst c2 fs2) [(b, x)] = .ok r2) :
+    ∃ r, replaceSg tbl (fuel + 2) (.inst cls fs) [(joinDot [a, b], x)] = .ok r ∧
+      ∀ sib, sib ≠ b → getPath r [a, sib] = getPath (.inst cls fs) [a, sib] := by
+  obtain ⟨r, h1, _⟩ := c18_subgroups_passthrough_partial tbl fuel cls fs a b x r2 c2 fs2 f ha hb hbk hi hf hv hdc hplain h2
+  refine ⟨r, h1, fun sib hs => ?_⟩
+  have hcur : getPath (.inst cls fs) [a] = some (.inst c2 fs2) := by
+    rw [getPath_cons_inst, hf]; simp [getPath, hv]
+  exact c18_subgroups_siblings_kept tbl (fuel + 2) _ r x a b sib c2 fs2 ha hb hbk hs hcur h1
+
+/-! ### replace: a valid edit DOES return (success), and the reference as an equivalence -/
+
+/-- the field loop on a single-entry change set `{k: x}` succeeds when `k` is an init field and the value step
+    (store `x`, or recurse when `x` is a dict on a dataclass-valued field) succeeds -/
+theorem replaceFields_single_ok (fs : List Fld) (k : Str) (x v' : Val) (f : Fld)
+    (hf : getFld fs k = some f) (hinit : f.init = true)
+    (hstep : match f.val, x with
+      | .inst cl sub, .dict fc => replaceKw (.inst cl sub) fc = .ok v'
+      | _, _ => v' = x) :
+    ∃ fs', replaceFields fs [(k, x)] = .ok (fs', []) ∧ setField fs k v' = some fs' := by
+  induction fs with
+  | nil => simp [getFld] at hf
+  | cons f0 rest ih =>
+    obtain ⟨n0, i, v0, d0⟩ := f0
+    simp only [getFld] at hf
+    by_cases hnk : n0 = k
+    · subst hnk
+      simp only [if_true, Option.some.injEq] at hf
+      subst hf
+      simp only [Fld.init] at hinit
+      subst hinit
+      simp only [Fld.val] at hstep
+      refine ⟨.mk n0 true v' d0 :: rest, ?_, by simp [setField]⟩
+      have hsel : dget [(n0, x)] n0 = some x := by simp [dget]
+      have hdel : ddel [(n0, x)] n0 = [] := by simp [ddel]
+      rw [replaceFields]
+      simp only [hsel, Bool.not_true, Bool.false_eq_true, if_false, hdel, replaceFields_nil]
+      split
+      · rename_i c sub fc
+        simp only at hstep
+        rw [hstep]
+      · rename_i hno
+        split at hstep
+        · exact (hno _ _ _ rfl rfl).elim
+        · rw [hstep]
+    · simp only [hnk, if_false] at hf
+      obtain ⟨fs', h1, h2⟩ := ih hf
+      have hkn : k ≠ n0 := fun e => hnk e.symm
+      refine ⟨.mk n0 i v0 d0 :: fs', ?_, by simp [setField, hnk, h2]⟩
+      rw [replaceFields]
+      simp [dget, hkn, h1]
+
+/-- **Success.** One edit in nested form whose path exists in `obj` and runs through init fields DOES return
+    (the property's "returns a new object"; with `c18_forms_dotted_nested` also in dotted form). -/
+theorem c18_succeeds_single (p : List Str) : ∀ (obj old v : Val), p ≠ [] → DotFree p →
+    getPath obj p = some old → initPath p obj = true → storedAsIs old v = true →
+    ∃ r, replaceKw obj (nestOf p v) = .ok r := by
+  induction p with
+  | nil => intro obj old v hne; exact absurd rfl hne
+  | cons k rest ih =>
+    intro obj old v _ hd hp hin hs
+    obtain ⟨cls, fs, rfl⟩ := getPath_nonInst obj k rest old hp
+    rw [getPath_cons_inst] at hp
+    cases hf : getFld fs k with
+    | none => rw [hf] at hp; simp at hp
+    | some f =>
+      rw [hf] at hp
+      simp only [Option.bind_some] at hp
+      simp only [initPath, hf, Bool.and_eq_true] at hin
+      have hu := unflatten_nested (k :: rest) v (by simp) hd
+      cases rest with
+      | nil =>
+        simp only [getPath, Option.some.injEq] at hp
+        obtain ⟨fs', h1, _⟩ := replaceFields_single_ok fs k v v f hf hin.1 (by
+          rw [hp]
+          split
+          · simp [storedAsIs] at hs
+          · rfl)
+        refine ⟨.inst cls (rebuild fs'), ?_⟩
+        rw [replaceKw, hu]
+        simp only [nestOf, h1]
+      | cons k2 r2 =>
+        obtain ⟨c2, sub, hsub⟩ := getPath_nonInst f.val k2 r2 old hp
+        have hd' : DotFree (k2 :: r2) := fun s hs' => hd s (by simp only [List.mem_cons] at hs' ⊢; right; exact hs')
+        obtain ⟨r', hr'⟩ := ih f.val old v (by simp) hd' hp hin.2 hs
+        obtain ⟨fs', h1, _⟩ := replaceFields_single_ok fs k (.dict (nestOf (k2 :: r2) v)) r' f hf hin.1 (by
+          rw [hsub]
+          simp only
+          rw [← hsub]; exact hr')
+        refine ⟨.inst cls (rebuild fs'), ?_⟩
+        rw [replaceKw, hu]
+        simp only [nestOf, h1]
+
+/-- **Reference as an equivalence**: for a valid single edit, `replace` returns `r` exactly when
+    `dataclasses.replace` applied level by level gives `r`. -/
+theorem c18_reference_iff (p : List Str) (obj old v r : Val) (hne : p ≠ []) (hd : DotFree p)
+    (hp : getPath obj p = some old) (hin : initPath p obj = true) (hs : storedAsIs old v = true) :
+    replaceKw obj (nestOf p v) = .ok r ↔ refEdit obj p v = some r := by
+  constructor
+  · intro h; exact c18_reference_single p obj r old v hne hd h hp hs
+  · intro h
+    obtain ⟨r', hr'⟩ := c18_succeeds_single p obj old v hne hd hp hin hs
+    have := c18_reference_single p obj r' old v hne hd hr' hp hs
+    rw [h] at this
+    cases this
+    exact hr'
+
+/-- all hypotheses of `c18_reference_single` / `c18_succeeds_single` / `c18_reference_iff` together, depth 2 -/
+example : DotFree [['m'], ['v']] ∧ getPath exObj [['m'], ['v']] = some (.int 0) ∧ initPath [['m'], ['v']] exObj = true ∧
+    storedAsIs (.int 0) (.int 3) = true ∧
+    (∃ r, replaceKw exObj (nestOf [['m'], ['v']] (.int 3)) = .ok r ∧ refEdit exObj [['m'], ['v']] (.int 3) = some r) :=
+  ⟨by intro s hs; simp at hs; rcases hs with rfl | rfl <;> decide, rfl, rfl, rfl, ⟨_, rfl, rfl⟩⟩
+
+/-! ### errors at any depth -/
+
+/-- the change set addresses, along the path `p` (through dataclass instances and nested dict entries), a field
+    that is `init=False` or does not exist -/
+def badAt : List Str → Val → Dict → Bool
+  | [], _, _ => false
+  | k :: rest, .inst _ fs, ch =>
+    match unflattenSplit ch with
+    | .ok n =>
+      match dget n k with
+      | Option.none => false
+      | some x =>
+        match getFld fs k with
+        | Option.none => true                                   -- unknown field
+        | some f =>
+          if !f.init then true                                  -- init=False field (also at an intermediate position)
+          else match f.val, x with
+            | .inst c sub, .dict fc => badAt rest (.inst c sub) fc
+            | _, _ => false
+    | .error _ => false
+  | _ :: _, _, _ => false
+
+/-- **Errors at any depth**: a change to an `init=False` or unknown field, however deep and in whatever form,
+    never returns normally (it is never ignored). -/
+theorem c18_bad_path_raises (p : List Str) : ∀ (obj : Val) (ch : Dict), badAt p obj ch = true →
+    ∀ r, replaceKw obj ch ≠ .ok r := by
+  induction p with
+  | nil => intro obj ch h; simp [badAt] at h
+  | cons k rest ih =>
+    intro obj ch h
+    cases obj with
+    | inst cls fs =>
+      simp only [badAt] at h
+      cases hu : unflattenSplit ch with
+      | error e => rw [hu] at h; simp at h
+      | ok n =>
+        rw [hu] at h
+        simp only at h
+        cases hk : dget n k with
+        | none => rw [hk] at h; simp at h
+        | some x =>
+          rw [hk] at h
+          simp only at h
+          cases hf : getFld fs k with
+          | none => exact c18_unknown_raises cls fs ch n k x hu hf hk
+          | some f =>
+            rw [hf] at h
+            simp only at h
+            cases hi : f.init with
+            | false => exact c18_noninit_raises cls fs ch n k f x hu hf hi hk
+            | true =>
+              rw [hi] at h
+              simp only [Bool.not_true, Bool.false_eq_true, if_false] at h
+              split at h
+              · rename_i cl sub fc hv
+                exact c18_nested_error_propagates cls fs ch n fc k f cl sub hu hf hv hk (ih (.inst cl sub) fc h)
+              · simp at h
+    | _ => simp [badAt] at h
+
+example : badAt [['m'], ['n']] exObj [(['m', '.', 'n'], .int 1)] = true := rfl
+example : badAt [['m'], ['q']] exObj [(['m'], .dict [(['q'], .int 1)])] = true := rfl
+
+/-! ### several edits: the forms are interchangeable per subtree, in any mixture -/
+
+/-- first component of a path (the top-level field an edit belongs to) -/
+def headOf (p : List Str) : Str := p.headD []
+
+/-- the top-level entry of the nested form of one edit -/
+def entryOf (e : List Str × Val) : Str × Val :=
+  match e.1 with
+  | [] => ([], e.2)
+  | [k] => (k, e.2)
+  | k :: k2 :: rest => (k, .dict (nestOf (k2 :: rest) e.2))
+
+/-- one edit written in the dotted (`true`) or in the nested (`false`) form -/
+def renderOne (dotted : Bool) (e : List Str × Val) : Str × Val :=
+  if dotted then (joinDot e.1, e.2) else entryOf e
+
+theorem entryOf_fst (e : List Str × Val) (hne : e.1 ≠ []) : (entryOf e).1 = headOf e.1 := by
+  obtain ⟨p, v⟩ := e
+  cases p with
+  | nil => exact absurd rfl hne
+  | cons k rest => cases rest <;> rfl
+
+theorem dset_append_of_none (d : Dict) (k : Str) (x : Val) (h : dget d k = Option.none) :
+    dset d k x = d ++ [(k, x)] := by
+  induction d with
+  | nil => rfl
+  | cons kv r ih =>
+    obtain ⟨a, b⟩ := kv
+    simp only [dget] at h
+    by_cases hak : a = k
+    · simp [hak] at h
+    · simp only [hak, if_false] at h
+      simp [dset, hak, ih h]
+
+theorem dget_append_single_ne (d : Dict) (k k' : Str) (x : Val) (h : k ≠ k') :
+    dget (d ++ [(k, x)]) k' = dget d k' := by
+  induction d with
+  | nil => simp [dget, h]
+  | cons kv r ih => obtain ⟨a, b⟩ := kv; simp only [List.cons_append, dget, ih]
+
+/-- writing an edit whose top-level field is not yet in the accumulator appends its nested entry -/
+theorem setPath_fresh (acc : Dict) (p : List Str) (v : Val) (hne : p ≠ [])
+    (h : dget acc (headOf p) = Option.none) : setPath acc p v = .ok (acc ++ [entryOf (p, v)]) := by
+  cases p with
+  | nil => exact absurd rfl hne
+  | cons k rest =>
+    simp only [headOf, List.headD_cons] at h
+    cases rest with
+    | nil => simp [setPath, entryOf, dset_append_of_none acc k v h]
+    | cons k2 r =>
+      simp only [setPath, h, setPath_nil_eq (k2 :: r) v (by simp), entryOf]
+      rw [dset_append_of_none acc k _ h]
+
+theorem setPath_renderOne (acc : Dict) (b : Bool) (e : List Str × Val) (hne : e.1 ≠ []) (hd : DotFree e.1)
+    (h : dget acc (headOf e.1) = Option.none) :
+    setPath acc (splitDot (renderOne b e).1) (renderOne b e).2 = .ok (acc ++ [entryOf e]) := by
+  cases b with
+  | true =>
+    simp only [renderOne, if_true, splitDot, joinDot, splitOnChar_join '.' e.1 hne hd]
+    exact setPath_fresh acc e.1 e.2 hne h
+  | false =>
+    have hk : splitDot (entryOf e).1 = [(entryOf e).1] := by
+      rw [entryOf_fst e hne]
+      obtain ⟨p, v⟩ := e
+      cases p with
+      | nil => exact absurd rfl hne
+      | cons k rest => exact splitOnChar_noSep '.' k (hd k (by simp))
+    simp only [renderOne, Bool.false_eq_true, if_false, hk, setPath]
+    rw [entryOf_fst e hne, dset_append_of_none acc _ _ h, ← entryOf_fst e hne]
+
+/-- **`unflatten_split` of a change set with one form per top-level field** (any mixture of dotted and nested
+    entries, in the given order) is the list of nested entries — whatever form each edit was written in. -/
+theorem unflattenFrom_render (es : List (List Str × Val)) : ∀ (cs : List Bool) (acc : Dict),
+    cs.length = es.length → (∀ e ∈ es, e.1 ≠ [] ∧ DotFree e.1) → (es.map (fun e => headOf e.1)).Nodup →
+    (∀ e ∈ es, dget acc (headOf e.1) = Option.none) →
+    unflattenFrom acc ((List.zipWith renderOne cs es).map (fun kv => (splitDot kv.1, kv.2))) = .ok (acc ++ es.map entryOf) := by
+  induction es with
+  | nil => intro cs acc hl _ _ _; cases cs <;> simp [unflattenFrom] at *
+  | cons e es' ih =>
+    intro cs acc hl hok hnd hacc
+    cases cs with
+    | nil => simp at hl
+    | cons c cs' =>
+      obtain ⟨hne, hd⟩ := hok e (by simp)
+      simp only [List.zipWith_cons_cons, List.map_cons, unflattenFrom,
+        setPath_renderOne acc c e hne hd (hacc e (by simp))]
+      simp only [List.map_cons, List.nodup_cons, List.mem_map, not_exists, not_and] at hnd
+      have := ih cs' (acc ++ [entryOf e]) (by simpa using hl) (fun x hx => hok x (by simp [hx])) hnd.2
+        (fun x hx => by
+          have hxe : (entryOf e).1 ≠ headOf x.1 := by rw [entryOf_fst e hne]; exact fun heq => hnd.1 x hx heq.symm
+          show dget (acc ++ [((entryOf e).1, (entryOf e).2)]) (headOf x.1) = Option.none
+          rw [dget_append_single_ne acc _ _ _ hxe]
+          exact hacc x (by simp [hx]))
+      rw [this]
+      simp
+
+/-- a well-formed list of edits: non-empty dot-free paths with pairwise distinct top-level fields -/
+def EditsOk (es : List (List Str × Val)) : Prop :=
+  (∀ e ∈ es, e.1 ≠ [] ∧ DotFree e.1) ∧ (es.map (fun e => headOf e.1)).Nodup
+
+theorem unflattenSplit_render (es : List (List Str × Val)) (cs : List Bool) (hl : cs.length = es.length)
+    (hes : EditsOk es) : unflattenSplit (List.zipWith renderOne cs es) = .ok (es.map entryOf) := by
+  have := unflattenFrom_render es cs [] hl hes.1 hes.2 (fun _ _ => rfl)
+  simpa [unflattenSplit] using this
+
+/-- **The forms are interchangeable for change sets with several edits**: for edits with pairwise distinct
+    top-level fields, writing each one in the dotted or in the nested form — in any mixture — gives the same
+    `replace` outcome (result or error). -/
+theorem c18_forms_multi (obj : Val) (es : List (List Str × Val)) (cs1 cs2 : List Bool)
+    (h1 : cs1.length = es.length) (h2 : cs2.length = es.length) (hes : EditsOk es) :
+    replaceKw obj (List.zipWith renderOne cs1 es) = replaceKw obj (List.zipWith renderOne cs2 es) := by
+  cases obj <;> simp only [replaceKw, unflattenSplit_render es cs1 h1 hes, unflattenSplit_render es cs2 h2 hes]
+
+theorem leafAt_of_unflat (p : List Str) : ∀ (v : Val) (ch : Dict), p ≠ [] → DotFree p →
+    unflattenSplit ch = .ok (nestOf p v) → leafAt ch p = some v := by
+  induction p with
+  | nil => intro v ch hne; exact absurd rfl hne
+  | cons k rest ih =>
+    intro v ch _ hd h0
+    cases rest with
+    | nil => simp [leafAt, h0, nestOf, dget]
+    | cons k2 r =>
+      have hd' : DotFree (k2 :: r) := fun s hs => hd s (by simp [List.mem_cons] at hs ⊢; right; exact hs)
+      simp only [leafAt, h0, nestOf, dget, if_true]
+      exact ih v _ (by simp) hd' (unflatten_nested (k2 :: r) v (by simp) hd')
+
+theorem dget_map_entryOf (es : List (List Str × Val)) (e : List Str × Val)
+    (hne : ∀ x ∈ es, x.1 ≠ []) (hnd : (es.map (fun x => headOf x.1)).Nodup) (he : e ∈ es) :
+    dget (es.map entryOf) (headOf e.1) = some (entryOf e).2 := by
+  induction es with
+  | nil => cases he
+  | cons e0 es' ih =>
+    simp only [List.map_cons, List.nodup_cons, List.mem_map, not_exists, not_and] at hnd
+    simp only [List.mem_cons] at he
+    have h0 : (entryOf e0).1 = headOf e0.1 := entryOf_fst e0 (hne e0 (by simp))
+    show dget (((entryOf e0).1, (entryOf e0).2) :: es'.map entryOf) (headOf e.1) = _
+    rcases he with rfl | he
+    · simp [dget, h0]
+    · have hne0 : (entryOf e0).1 ≠ headOf e.1 := by rw [h0]; exact fun heq => hnd.1 e he heq.symm
+      simp only [dget, hne0, if_false]
+      exact ih (fun x hx => hne x (by simp [hx])) hnd.2 he
+
+/-- **`leafAt` on written change sets**: in a change set with one form per top-level field, every edit `(p, v)`
+    — written dotted or nested, wherever it stands — is assigned its value: `leafAt ch p = some v`.  (This ties
+    `leafAt`, hence `c18_addressed_partial`, to the syntax of multi-key change sets.) -/
+theorem leafAt_render (es : List (List Str × Val)) (cs : List Bool) (hl : cs.length = es.length)
+    (hes : EditsOk es) (e : List Str × Val) (he : e ∈ es) :
+    leafAt (List.zipWith renderOne cs es) e.1 = some e.2 := by
+  have hu := unflattenSplit_render es cs hl hes
+  have hg := dget_map_entryOf es e (fun x hx => (hes.1 x hx).1) hes.2 he
+  obtain ⟨hne, hd⟩ := hes.1 e he
+  obtain ⟨p, v⟩ := e
+  cases p with
+  | nil => exact absurd rfl hne
+  | cons k rest =>
+    cases rest with
+    | nil => simpa [leafAt, hu, headOf, entryOf] using hg
+    | cons k2 r =>
+      have hd' : DotFree (k2 :: r) := fun s hs => hd s (by simp [List.mem_cons] at hs ⊢; right; exact hs)
+      simp only [headOf, List.headD_cons, entryOf] at hg
+      simp only [leafAt, hu, hg]
+      exact leafAt_of_unflat (k2 :: r) v _ (by simp) hd' (unflatten_nested (k2 :: r) v (by simp) hd')
+
+/-- corollary: **every addressed leaf of a multi-edit change set**, in any mixture of forms, holds its new value
+    (D19 exclusion as in `c18_addressed_partial`) -/
+theorem c18_addressed_multi (obj r old : Val) (es : List (List Str × Val)) (cs : List Bool)
+    (hl : cs.length = es.length) (hes : EditsOk es) (e : List Str × Val) (he : e ∈ es)
+    (h : replaceKw obj (List.zipWith renderOne cs es) = .ok r) (hp : getPath obj e.1 = some old)
+    (hs : storedAsIs old e.2 = true) : getPath r e.1 = some e.2 :=
+  c18_addressed_partial e.1 obj _ r e.2 old h (leafAt_render es cs hl hes e he) hp hs
+
+/-- the top-level lookup of such a change set does not depend on the forms chosen -/
+theorem leafAt_render_head (es : List (List Str × Val)) (cs : List Bool) (hl : cs.length = es.length)
+    (hes : EditsOk es) (k : Str) :
+    (match unflattenSplit (List.zipWith renderOne cs es) with | .ok n => dget n k | .error _ => Option.none) =
+      dget (es.map entryOf) k := by
+  rw [unflattenSplit_render es cs hl hes]
+
+example : EditsOk [([['m'], ['v']], Val.int 3), ([['z']], Val.int 4)] := by
+  refine ⟨?_, by decide⟩
+  intro e he
+  simp at he
+  rcases he with rfl | rfl
+  · exact ⟨by simp, by intro s hs; simp at hs; rcases hs with rfl | rfl <;> decide⟩
+  · exact ⟨by simp, by intro s hs; simp at hs; subst hs; decide⟩
+
+example : List.zipWith renderOne [true, false] [([['m'], ['v']], Val.int 3), ([['z']], Val.int 4)] =
+    [(['m', '.', 'v'], .int 3), (['z'], .int 4)] := by rfl
+example : List.zipWith renderOne [false, false] [([['m'], ['v']], Val.int 3), ([['z']], Val.int 4)] =
+    [(['m'], .dict [(['v'], .int 3)]), (['z'], .int 4)] := by rfl
+
 end SpVerif.C18
